@@ -4,6 +4,7 @@
    exact on every input (full strength); any vector, in particular the faithful one => exact on
    every input outside the listed defect classes (confinement). *)
 From TL Require Import Lib.Base Model.CollectStr Model.Glob Gen.CollectGen Model.Collect Model.CollectSpec
+     Actual.CollectActual
      Proofs.CollectStrFacts Proofs.GlobFacts Proofs.CollectTables Proofs.CollectIgnoreStr Proofs.CollectWalk Proofs.CollectIgnore.
 
 (* ------------------------------------------------------------------ .thailintignore lines *)
@@ -74,23 +75,37 @@ Definition json_clear (q : cquirks) (S : tsources) : Prop :=
 Definition ti_clear (q : cquirks) (S : tsources) : Prop :=
   q_ti_shadows_config q = false \/ t_ti S = None \/ (opt_pats (t_yaml S) = [] /\ opt_pats (t_json S) = []).
 
-Lemma config_patterns_spec q S : json_clear q S ->
+Lemma names_all : ignore_config_names = [".thailint.yaml"; ".thailint.json"]%string.
+Proof. reflexivity. Qed.
+
+Lemma names_nojson : filter (fun n => negb (String.eqb n ".thailint.json")) ignore_config_names = [".thailint.yaml"]%string.
+Proof. reflexivity. Qed.
+
+Lemma config_patterns_spec q S : json_clear q S -> one_config S = true ->
   config_patterns q (render_sources S) = map render (opt_pats (t_yaml S) ++ opt_pats (t_json S)).
 Proof.
-  intro H. unfold config_patterns. cbn [render_sources s_yaml s_json]. rewrite !opt_list_map, map_app.
-  destruct H as [-> | H]; [reflexivity|]. rewrite H. cbn [map]. now destruct (q_json_ignore_unused q).
+  intros H H1. unfold config_patterns, json_clear, one_config in *. rewrite names_nojson, names_all.
+  assert (Ey : source_of (render_sources S) ".thailint.yaml" = option_map (map render) (t_yaml S)) by reflexivity.
+  assert (Ej : source_of (render_sources S) ".thailint.json" = option_map (map render) (t_json S)) by reflexivity.
+  destruct (t_yaml S) as [y|], (t_json S) as [j|]; try discriminate H1; cbn [opt_pats option_map] in *.
+  - destruct (q_json_ignore_unused q); cbn [first_config]; rewrite Ey; now rewrite app_nil_r.
+  - destruct (q_json_ignore_unused q); cbn [first_config]; rewrite ?Ey, ?Ej; cbn [app].
+    + destruct H as [H|H]; [discriminate|]. now rewrite H.
+    + reflexivity.
+  - destruct (q_json_ignore_unused q); cbn [first_config]; rewrite ?Ey, ?Ej; reflexivity.
 Qed.
 
-Lemma load_patterns_spec q S : json_clear q S -> ti_clear q S -> forallb line_ok (opt_pats (t_ti S)) = true ->
+Lemma load_patterns_spec q S : json_clear q S -> ti_clear q S -> one_config S = true -> forallb line_ok (opt_pats (t_ti S)) = true ->
   load_patterns q (render_sources S) = map render (spec_pats S).
 Proof.
-  intros Hj Ht Hl. unfold load_patterns, spec_pats. rewrite (config_patterns_spec q S Hj).
+  intros Hj Ht H1 Hl. unfold load_patterns, spec_pats. rewrite (config_patterns_spec q S Hj H1).
   change (s_ti (render_sources S)) with (option_map (map render_line) (t_ti S)).
   destruct (t_ti S) as [ls|] eqn:Eti; cbn [option_map opt_pats flat_map app].
   - cbn [opt_pats] in Hl. rewrite extract_render by exact Hl.
     rewrite (map_app render (flat_map line_pats ls)). f_equal.
-    destruct Ht as [-> | [Ht | [H1 H2]]]; [reflexivity|congruence|].
-    rewrite H1, H2. cbn. now destruct (q_ti_shadows_config q).
+    change (negb load_combines_sources) with false. rewrite orb_false_r.
+    destruct Ht as [-> | [Ht | [H2 H3]]]; [reflexivity|congruence|].
+    rewrite H2, H3. cbn. now destruct (q_ti_shadows_config q).
   - reflexivity.
 Qed.
 
@@ -108,7 +123,7 @@ Definition pats_clear (q : cquirks) (S : tsources) : Prop :=
 
 Lemma spec_pats_ok S : tsources_ok S = true -> forall p, In p (spec_pats S) -> pat_ok p = true.
 Proof.
-  unfold tsources_ok, spec_pats. rewrite !andb_true_iff. intros [[H1 H2] H3] p Hp.
+  unfold tsources_ok, spec_pats. rewrite !andb_true_iff. intros [[[H1 H2] H3] _] p Hp.
   rewrite !in_app_iff in Hp. rewrite !forallb_forall in *. destruct Hp as [Hp|[Hp|Hp]]; [|now apply H2|now apply H3].
   apply in_flat_map in Hp. destruct Hp as [l [Hl Hp]]. specialize (H1 _ Hl). destruct l; try destruct Hp as [<-|[]]; try destruct Hp. exact H1.
 Qed.
@@ -127,12 +142,13 @@ Lemma existsb_hx l : existsb hx_part_cond l = existsb spec_excluded_dir l.
 Proof. apply existsb_ext_in. intros x _. apply hx_part_cond_spec. Qed.
 
 Lemma gate_hard_unfold q abs p : p <> [] ->
-  gate_hard q abs p = spec_compiled (last p "")
-                      || (existsb spec_excluded_dir (if q_excl_above_root q then abs else [])
-                          || existsb spec_excluded_dir (if q_excl_filename q then p else removelast p)).
+  gate_hard q (q_excl_above_root q) abs p
+  = spec_compiled (last p "")
+    || (existsb spec_excluded_dir (if q_excl_above_root q then abs else [])
+        || existsb spec_excluded_dir (if q_excl_filename q then p else removelast p)).
 Proof.
-  intro Hne. unfold gate_hard. destruct (q_excl_above_root q), (q_excl_filename q); cbn [andb];
-    rewrite ?is_hardcoded_excluded_shape, !hx_suffix_spec, !existsb_hx, ?existsb_app, ?last_app_ne by exact Hne; reflexivity.
+  intro Hne. unfold gate_hard. destruct (q_excl_above_root q), (q_excl_filename q); cbn [andb negb];
+    rewrite ?is_hardcoded_excluded_shape, !hx_suffix_spec, !existsb_hx, ?existsb_app; reflexivity.
 Qed.
 
 Definition abs_clear (q : cquirks) (abs : list string) : Prop :=
@@ -140,7 +156,7 @@ Definition abs_clear (q : cquirks) (abs : list string) : Prop :=
 Definition name_clear (q : cquirks) (p : list string) : Prop :=
   q_excl_filename q = false \/ spec_excluded_dir (last p "") = false.
 
-Lemma gate_hard_spec q abs p : abs_clear q abs -> name_clear q p -> p <> [] -> gate_hard q abs p = negb (hard_ok p).
+Lemma gate_hard_spec q abs p : abs_clear q abs -> name_clear q p -> p <> [] -> gate_hard q (q_excl_above_root q) abs p = negb (hard_ok p).
 Proof.
   intros Ha Hn Hne. rewrite gate_hard_unfold by exact Hne. unfold hard_ok. rewrite negb_andb, !negb_involutive.
   assert (E1 : existsb spec_excluded_dir (if q_excl_above_root q then abs else []) = false).
@@ -152,7 +168,7 @@ Proof.
 Qed.
 
 (* ------------------------------------------------------------------ lint_file *)
-Lemma linted_unfold q abs pats p : linted q abs pats p = negb (gate_hard q abs p) && negb (is_ignored q pats p).
+Lemma linted_unfold q abs pats p : linted q abs pats p = negb (gate_hard q (q_excl_above_root q) abs p) && negb (is_ignored q pats p).
 Proof. unfold linted. rewrite lint_gates_spec. cbn [existsb gate_fires]. now rewrite orb_false_r, negb_orb. Qed.
 
 Lemma spec_ok_unfold S p : spec_ok S p = hard_ok p && negb (spec_ignored S p).
@@ -168,7 +184,10 @@ Record clear (q : cquirks) (abs : list string) (S : tsources) : Prop := {
   cl_ti : ti_clear q S }.
 
 Lemma tsources_lines_ok S : tsources_ok S = true -> forallb line_ok (opt_pats (t_ti S)) = true.
-Proof. unfold tsources_ok. rewrite !andb_true_iff. now intros [[H _] _]. Qed.
+Proof. unfold tsources_ok. rewrite !andb_true_iff. now intros [[[H _] _] _]. Qed.
+
+Lemma tsources_one_config S : tsources_ok S = true -> one_config S = true.
+Proof. unfold tsources_ok. rewrite !andb_true_iff. now intros [_ H]. Qed.
 
 (* a file named explicitly reaches the rules iff the specification says it should *)
 Theorem linted_exact_gen q abs S p :
@@ -176,7 +195,7 @@ Theorem linted_exact_gen q abs S p :
   linted q abs (load_patterns q (render_sources S)) p = spec_ok S p.
 Proof.
   intros [Ha Hp Hj Ht] Hn HS Hpo. assert (Hc := path_ok_comps _ Hpo).
-  rewrite linted_unfold, spec_ok_unfold, load_patterns_spec; [|exact Hj|exact Ht|now apply tsources_lines_ok].
+  rewrite linted_unfold, spec_ok_unfold, load_patterns_spec; [|exact Hj|exact Ht|now apply tsources_one_config|now apply tsources_lines_ok].
   rewrite is_ignored_spec by assumption. rewrite gate_hard_spec; [|exact Ha|exact Hn|exact (proj1 Hc)].
   now rewrite negb_involutive.
 Qed.
@@ -236,6 +255,25 @@ Theorem run_files_exact q abs S ps :
 Proof.
   intros Hq. apply run_files_exact_gen; [now apply flags_off_clear|]. intros p _. left. apply Hq.
 Qed.
+
+(* the vector claimed for the current tree has every flag off: the statements hold for it without any guard *)
+Lemma actual_flags_off : flags_off collect_actual.
+Proof. repeat split. Qed.
+
+Theorem run_dir_exact_actual rec abs rel t S :
+  rel_ok rel = true -> target_ok t = true -> tsources_ok S = true ->
+  run_dir collect_actual rec abs rel t (render_sources S) = spec_dir rec rel t S.
+Proof. apply run_dir_exact. exact actual_flags_off. Qed.
+
+Theorem run_dir_par_exact_actual rec abs rel t S :
+  rel_ok rel = true -> target_ok t = true -> tsources_ok S = true ->
+  run_dir_par collect_actual rec abs rel t (render_sources S) = spec_dir rec rel t S.
+Proof. apply run_dir_par_exact. exact actual_flags_off. Qed.
+
+Theorem run_files_exact_actual abs S ps :
+  tsources_ok S = true -> forallb path_ok ps = true ->
+  run_files collect_actual abs (render_sources S) ps = spec_files S ps.
+Proof. apply run_files_exact. exact actual_flags_off. Qed.
 
 (* an excluded or ignored file never reaches the rules, under a directory target or named explicitly *)
 Theorem excluded_never_linted q rec abs rel t S ps p :
